@@ -23,14 +23,17 @@ struct DD {
     nix::File file;
     std::string path;
     nix::Block b, b2;
-    nix::DataArray a;
+    nix::DataArray a;        // the handle the current op goes through
+    nix::DataArray h[2];     // two long-lived handles of the one array (separate backend objects)
+    unsigned muts = 0;       // mutating calls so far: most go through h[0], every third through h[1]
+    int lastMut = 0;
     nix::DataFrame f, g;
 };
 DD &dd() { static DD s; return s; }
 
 void ddDrop() {
     DD &s = dd();
-    s.a = nix::DataArray(); s.f = nix::DataFrame(); s.g = nix::DataFrame(); s.b = nix::Block(); s.b2 = nix::Block();
+    s.a = nix::DataArray(); s.h[0] = nix::DataArray(); s.h[1] = nix::DataArray(); s.f = nix::DataFrame(); s.g = nix::DataFrame(); s.b = nix::Block(); s.b2 = nix::Block();
     if (s.file) { try { s.file.close(); } catch (...) {} s.file = nix::File(); }
 }
 void ddReset() {
@@ -111,7 +114,17 @@ std::string arrTok(const nix::DataArray &a) {
 void fetch() {
     DD &s = dd();
     s.b = s.file.getBlock("b"); s.b2 = s.file.getBlock("b2");
-    s.a = s.b.getDataArray("a"); s.f = s.b.getDataFrame("f"); s.g = s.b2.getDataFrame("g");
+    s.h[0] = s.b.getDataArray("a"); s.h[1] = s.b.getDataArray("a"); s.a = s.h[0];
+    s.f = s.b.getDataFrame("f"); s.g = s.b2.getDataFrame("g");
+}
+
+// Two handles of one array must be indistinguishable: state cached in a handle (a count, an extent) would go stale when the
+// other handle mutates.  Mutations alternate between the handles, every observation is made through both.
+nix::DataArray &mutHandle() {
+    DD &s = dd();
+    s.lastMut = (s.muts++ % 3 == 2) ? 1 : 0;
+    s.a = s.h[s.lastMut];
+    return s.a;
 }
 
 }  // namespace
@@ -127,7 +140,8 @@ DRV_OP(dd_new) {
         std::vector<std::string> l = tokList(a[2]);
         nix::NDSize shape(l.size());
         for (size_t i = 0; i < l.size(); i++) shape[i] = tokNat(l[i]);
-        s.a = s.b.createDataArray("a", "t", dtOf(a[1]), shape);
+        s.h[0] = s.b.createDataArray("a", "t", dtOf(a[1]), shape);
+        s.h[1] = s.b.getDataArray("a"); s.a = s.h[0]; s.muts = 0; s.lastMut = 0;
         static const char *units[] = {"mV", "s", "", "Hz"};
         static const nix::DataType types[] = {nix::DataType::Double, nix::DataType::Int64, nix::DataType::String, nix::DataType::Double};
         std::vector<nix::Column> cols;
@@ -155,7 +169,7 @@ DRV_OP(dd_reopen) {
 DRV_OP(dd_app) {
     if (a.size() < 2) throw ProtoError("dd_app arity");
     return guarded([&]() {
-        nix::DataArray &da = dd().a;
+        nix::DataArray &da = mutHandle();
         const std::string &k = a[1];
         nix::Dimension d;
         if (k == "set") {
@@ -185,7 +199,7 @@ DRV_OP(dd_app) {
 DRV_OP(dd_create) {
     if (a.size() < 2) throw ProtoError("dd_create arity");
     return guarded([&]() {
-        nix::DataArray &da = dd().a;
+        nix::DataArray &da = mutHandle();
         const std::string &k = a[1];
         nix::Dimension d;
         if (k == "set") { if (a.size() != 3) throw ProtoError("dd_create set arity"); d = da.createSetDimension(tokNat(a[2])); }
@@ -199,13 +213,13 @@ DRV_OP(dd_create) {
 #pragma GCC diagnostic pop
 
 DRV_OP(dd_del) {
-    return guarded([&]() { return std::string(dd().a.deleteDimensions() ? "1" : "0"); });
+    return guarded([&]() { return std::string(mutHandle().deleteDimensions() ? "1" : "0"); });
 }
 
 DRV_OP(dd_set) {
     if (a.size() != 4) throw ProtoError("dd_set arity");
     return guarded([&]() {
-        nix::Dimension d = dd().a.getDimension(tokNat(a[1]));
+        nix::Dimension d = mutHandle().getDimension(tokNat(a[1]));
         const std::string &f = a[2]; bool none = a[3] == "~";
         switch (d.dimensionType()) {
         case nix::DimensionType::Sample: {
@@ -238,7 +252,7 @@ DRV_OP(dd_set) {
 DRV_OP(dd_arr) {
     if (a.size() != 3) throw ProtoError("dd_arr arity");
     return guarded([&]() {
-        nix::DataArray &da = dd().a;
+        nix::DataArray &da = mutHandle();
         const std::string &f = a[1]; bool none = a[2] == "~";
         if (f == "label") { if (none) da.label(nix::none); else da.label(unhexStr(a[2])); }
         else if (f == "unit") { if (none) da.unit(nix::none); else da.unit(unhexStr(a[2])); }
@@ -256,20 +270,28 @@ DRV_OP(dd_arr) {
 DRV_OP(dd_ticks) {
     if (a.size() != 4) throw ProtoError("dd_ticks arity");
     return guarded([&]() {
-        nix::RangeDimension r = dd().a.getDimension(tokNat(a[1])).asRangeDimension();
+        nix::RangeDimension r = dd().h[1 - dd().lastMut].getDimension(tokNat(a[1])).asRangeDimension();
         return dsemi(r.ticks(tokNat(a[2]), (size_t) tokNat(a[3])));
     });
 }
 
+namespace {
+std::string obsOf(const nix::DataArray &da) {
+    nix::ndsize_t n = da.dimensionCount();
+    std::string idx = safe([&]() { std::vector<std::string> l; for (auto &d : da.dimensions()) l.push_back(std::to_string(d.index())); return listTok(l); });
+    std::string out = std::to_string(n) + " " + idx + " " + arrTok(da);
+    for (nix::ndsize_t i = 0; i <= n + 1; i++) {
+        out += " " + safe([&]() { return descTok(da.getDimension(i)); });
+    }
+    return out;
+}
+}
+
 DRV_OP(dd_obs) {
     return guarded([&]() {
-        nix::DataArray &da = dd().a;
-        nix::ndsize_t n = da.dimensionCount();
-        std::string idx = safe([&]() { std::vector<std::string> l; for (auto &d : da.dimensions()) l.push_back(std::to_string(d.index())); return listTok(l); });
-        std::string out = std::to_string(n) + " " + idx + " " + arrTok(da);
-        for (nix::ndsize_t i = 0; i <= n + 1; i++) {
-            out += " " + safe([&]() { return descTok(da.getDimension(i)); });
-        }
-        return out;
+        DD &s = dd();
+        std::string o0 = obsOf(s.h[0]), o1 = obsOf(s.h[1]);
+        // when the two handles disagree, report the view of the one that did not make the last change
+        return o0 == o1 ? o0 : (s.lastMut == 0 ? o1 : o0);
     });
 }
